@@ -1,2 +1,173 @@
-/-! placeholder driver (property C10 not built yet) -/
-def main : IO Unit := IO.println "bad-op"
+import Std.Data.HashMap
+import LlgoVerif.Util
+import LlgoVerif.Model.Chan
+/-! Line-protocol driver for C10 (channels under a controllable scheduler).
+
+    reset | chan <cap> | thread <op>…      configuration (answers `ok`)
+      op:  s<c>:<v>  r<c>  c<c>  S:b:<cases>  S:n:<cases>     cases: `-` or `,`-separated  s<c>=<v> | r<c>
+    step <t> | wake <t>                    one scheduler choice; answers the observable state or `bad-step`
+    prio <t>,<t>,… | auto                  `auto` steps the first runnable thread of the priority list
+    state                                  observable state
+    explore <maxStates> <wakes 0|1>        breadth-first exploration of the model's state graph from the
+                                           current state; answers schedules that cover every transition -/
+open LlgoVerif LlgoVerif.Util LlgoVerif.Chan
+
+instance : Inhabited Choice := ⟨.step 0⟩
+instance : Inhabited State := ⟨init [] []⟩
+
+structure D where
+  caps : List Nat := []
+  progs : List (List Op) := []
+  cur : State := init [] []
+  prio : List Nat := []
+
+def parseCase (s : String) : Option Case :=
+  match s.toList with
+  | 's' :: rest =>
+    match (String.ofList rest).splitOn "=" with
+    | [c, v] => do pure { c := (← c.toNat?), send := true, v := (← v.toNat?) }
+    | _ => none
+  | 'r' :: rest => do pure { c := (← (String.ofList rest).toNat?), send := false, v := 0 }
+  | _ => none
+
+def parseOp (s : String) : Option Op :=
+  match s.splitOn ":" with
+  | ["S", b, cs] =>
+    let blocking := b == "b"
+    if cs == "-" then some (.select [] blocking)
+    else do
+      let cases ← (cs.splitOn ",").mapM parseCase
+      pure (.select cases blocking)
+  | [a, v] =>
+    match a.toList with
+    | 's' :: rest => do pure (.send (← (String.ofList rest).toNat?) (← v.toNat?))
+    | _ => none
+  | [a] =>
+    match a.toList with
+    | 'r' :: rest => do pure (.recv (← (String.ofList rest).toNat?))
+    | 'c' :: rest => do pure (.close (← (String.ofList rest).toNat?))
+    | _ => none
+  | _ => none
+
+def natList (l : List Nat) (sep : String) : String :=
+  if l.isEmpty then "-" else sep.intercalate (l.map toString)
+
+def b01 (b : Bool) : String := if b then "1" else "0"
+
+def showStray (st : List (Nat × Val)) : String :=
+  String.join (st.map fun (k, v) => s!"!{k}/{v}")
+
+def showRes : Res → String
+  | .sent => "S"
+  | .closed => "C"
+  | .recv v ok => s!"R{v}/{b01 ok}"
+  | .sel i v ok st => s!"L{i}/{v}/{b01 ok}{showStray st}"
+  | .dflt st => s!"D{showStray st}"
+  | .panic => "P"
+
+def showState (s : State) : String :=
+  let ids := List.range s.threads.length
+  let r := ids.filter (runnable s)
+  let w := ids.filter fun t => (s.thread t).waiting && (s.thread t).pc != .done
+  let cs := s.chans.map fun ch => s!"{ch.len}:{b01 ch.closed}:{natList ch.contents "."}"
+  let ts := s.threads.map fun th =>
+    let pend := if th.pc == .done then [] else strays th.rv 0 none
+    s!"{b01 (th.pc == .done)}:{if th.res.isEmpty then "-" else ".".intercalate (th.res.map showRes)}:{if pend.isEmpty then "-" else ".".intercalate (pend.map fun (k, v) => s!"{k}/{v}")}"
+  s!"R={natList r ","} W={natList w ","} C {" ".intercalate cs} T {" ".intercalate ts}"
+
+def choices (s : State) (wakes : Bool) : List Choice :=
+  let ids := List.range s.threads.length
+  (ids.filter (runnable s)).map Choice.step ++
+    (if wakes then (ids.filter fun t => (s.thread t).waiting && (s.thread t).pc != .done).map Choice.wake else [])
+
+def showChoice : Choice → String
+  | .step t => s!"s{t}"
+  | .wake t => s!"w{t}"
+
+structure Ex where
+  ids : Std.HashMap State Nat := {}
+  parent : Array (Nat × Choice) := #[]     -- for state i > 0: (parent id, choice)
+  states : Array State := #[]
+  out : Array String := #[]
+  trans : Nat := 0
+  term : Nat := 0
+
+def pathTo (e : Ex) (i : Nat) : List Choice := Id.run do
+  let mut acc : List Choice := []
+  let mut j := i
+  for _ in [0:e.states.size] do
+    if j == 0 then break
+    let (p, c) := e.parent[j]!
+    acc := c :: acc
+    j := p
+  return acc
+
+def showSched (l : List Choice) : String := if l.isEmpty then "-" else ",".intercalate (l.map showChoice)
+
+def explore (s0 : State) (maxStates : Nat) (wakes : Bool) : String := Id.run do
+  let mut e : Ex := { ids := (({} : Std.HashMap State Nat).insert s0 0), parent := #[(0, .step 0)], states := #[s0] }
+  let mut i := 0
+  let mut trunc := false
+  while i < e.states.size do
+    let s := e.states[i]!
+    let cs := choices s wakes
+    if cs.isEmpty then
+      e := { e with term := e.term + 1, out := e.out.push (showSched (pathTo e i)) }
+    for c in cs do
+      match Chan.apply s c with
+      | none => pure ()
+      | some s' =>
+        e := { e with trans := e.trans + 1 }
+        match e.ids[s']? with
+        | some _ => e := { e with out := e.out.push (showSched (pathTo e i ++ [c])) }
+        | none =>
+          if e.states.size ≥ maxStates then
+            trunc := true
+            e := { e with out := e.out.push (showSched (pathTo e i ++ [c])) }
+          else
+            let id := e.states.size
+            e := { e with ids := e.ids.insert s' id, parent := e.parent.push (i, c), states := e.states.push s' }
+    i := i + 1
+  return s!"explored states={e.states.size} trans={e.trans} term={e.term} trunc={b01 trunc} {";".intercalate e.out.toList}"
+
+def handle (d : D) (line : String) : D × String :=
+  match fields line with
+  | ["reset"] => ({}, "ok")
+  | ["chan", n] =>
+    match n.toNat? with
+    | some n => let caps := d.caps ++ [n]; ({ d with caps := caps, cur := init caps d.progs }, "ok")
+    | none => (d, "bad-op")
+  | "thread" :: toks =>
+    match toks.mapM parseOp with
+    | some ops => let progs := d.progs ++ [ops]; ({ d with progs := progs, cur := init d.caps progs }, "ok")
+    | none => (d, "bad-op")
+  | ["step", t] =>
+    match t.toNat? with
+    | some t => match step d.cur t with
+      | some s' => ({ d with cur := s' }, showState s')
+      | none => (d, "bad-step")
+    | none => (d, "bad-op")
+  | ["wake", t] =>
+    match t.toNat? with
+    | some t => match wake d.cur t with
+      | some s' => ({ d with cur := s' }, showState s')
+      | none => (d, "bad-step")
+    | none => (d, "bad-op")
+  | ["prio", l] =>
+    match (l.splitOn ",").mapM String.toNat? with
+    | some p => ({ d with prio := p }, "ok")
+    | none => (d, "bad-op")
+  | ["auto"] =>
+    match d.prio.find? (runnable d.cur) with
+    | some t => match step d.cur t with
+      | some s' => ({ d with cur := s' }, s!"t{t} " ++ showState s')
+      | none => (d, "bad-step")
+    | none => (d, "stuck " ++ showState d.cur)
+  | ["state"] => (d, showState d.cur)
+  | ["explore", m, w] =>
+    match m.toNat? with
+    | some m => (d, explore d.cur m (w == "1"))
+    | none => (d, "bad-op")
+  | _ => (d, "bad-op")
+
+def main : IO Unit := lineLoopSt ({} : D) handle
